@@ -305,6 +305,28 @@ def ref_update(d1, d2, ow):
     return ("dict", cls, items)
 
 
+def cnum(c):
+    """canonical number -> Fraction (bools are ints), else None"""
+    from fractions import Fraction
+    if isinstance(c, bool):
+        return Fraction(int(c))
+    if isinstance(c, int):
+        return Fraction(c)
+    if isinstance(c, tuple) and len(c) == 3 and c[0] == "float":
+        return Fraction(c[1]) * (Fraction(10) ** c[2])
+    return None
+
+
+def ceq(a, b):
+    """Python == on canonical scalars / lists (floats are kept as decimal tuples)"""
+    na, nb = cnum(a), cnum(b)
+    if na is not None or nb is not None:
+        return na is not None and nb is not None and na == nb
+    if isinstance(a, list) and isinstance(b, list):
+        return len(a) == len(b) and all(ceq(x, y) for x, y in zip(a, b))
+    return type(a) is type(b) and a == b
+
+
 def item_value(c, key):
     if not cdict(c):
         raise Unspec("item is not a dict")
@@ -314,7 +336,7 @@ def item_value(c, key):
 def ref_find(lst, key, want):
     for it in lst:
         p, v = item_value(it, key)
-        if p and v == want:
+        if p and ceq(v, want):
             return it
     return None
 
@@ -323,7 +345,7 @@ def ref_findall(lst, key, want):
     out = []
     for it in lst:
         p, v = item_value(it, key)
-        if p and ((v in want) if isinstance(want, list) else (v == want)):
+        if p and (any(ceq(v, w) for w in want) if isinstance(want, list) else ceq(v, want)):
             out.append(it)
     return out
 
@@ -534,7 +556,7 @@ def hunt_find(case):
                 kinds.add("findall:extra-item")
         for i in missing:
             v = item_value(lstc[i], key)[1]
-            if not v:
+            if v is None or v == "" or v == [] or cnum(v) == 0:
                 kinds.add("findall:falsy-value-skipped")
             else:
                 kinds.add("findall:missing-item")
@@ -649,7 +671,7 @@ def shrink_case(case, fp):
 KEYS = ["a", "b", "c", "name", "group", "layers", "styles", "classes", "__type__"]
 VARIANTS = {"a": ["A"], "b": ["B"], "name": ["NAME", "Name"], "group": ["GROUP"], "layers": ["LAYERS", "Layers"],
             "styles": ["STYLES"], "classes": ["Classes"], "c": ["C"], "__type__": ["__TYPE__"]}
-SCALARS = [1, 0, 2, -3, 7, True, False, None, "x", "road", "roads", "", "ab", "b", 2.5, "Été", "POINT"]
+SCALARS = [1, 0, 2, -3, 7, True, False, None, "x", "road", "roads", "", "ab", "b", 2.5, 1.0, 0.0, "Été", "POINT"]
 CLS_ALL = [0, 0, 0, 4, 4, 4, 3, 3, 2, 1]
 CLS_MAIN = [0, 0, 4, 4, 3]
 
@@ -809,7 +831,7 @@ def gen_update_case(rng):
     return {"fn": "update", "d1": d1, "d2": d2, "ow": rng.random() < 0.6}
 
 
-FIND_VALUES = ["road", "roads", "x", "", 0, 1, 5, False, True, None, "ab", "b", 2.5, "POINT", "point"]
+FIND_VALUES = ["road", "roads", "x", "", 0, 1, 5, False, True, None, "ab", "b", 2.5, 1.0, 0.0, "POINT", "point"]
 
 
 def gen_find_case(rng, fn):
